@@ -53,11 +53,13 @@ Fixpoint first_nonempty (l : list text) : text :=
 
 (** identities derived from every base; the other direction of the derivation relation than the
     implementation's walk is used on purpose in [derives_from] (Check/C02Check.v compares both) *)
-Definition inter_all (sets : list (list iid)) (universe : list iid) : list iid :=
-  filter (fun j => forallb (mem_iid j) sets) universe.
 Definition accepted_inter (mods : list modl) (ids : list iid) : list iid :=
-  if is_nil ids then []
-  else inter_all (map (descendants (ident_fuel mods) mods) ids) (map fst (all_idents mods)).
+  match ids with
+  | [] => []
+  | i :: others =>
+      filter (fun j => forallb (fun b => mem_iid j (descendants (ident_fuel mods) mods b)) others)
+             (dedup (descendants (ident_fuel mods) mods i))
+  end.
 
 Fixpoint derives_from (fuel : nat) (mods : list modl) (j i : iid) : bool :=
   match fuel with
